@@ -95,6 +95,8 @@ def thr_case(rng, exact, metric=None, method=None):
         case["dtype_pos"], case["dtype_neg"] = ("int64", "float64") if mixed == "pos" else ("float64", "int64")
     # history: other threshold queries made on the same object before the one under test
     case["warmup"] = rng.sample(METRICS, rng.choice([0, 0, 1, 2]))
+    # ... and bootstrap samples drawn from the object before (the source object stays what it was)
+    case["warm_sample"] = rng.choice([None, None, None, "proportion", "replacement", "single_pass"])
     return case
 
 
@@ -172,6 +174,14 @@ def run_thresholds(case):
             try:
                 s.bootstrap_ci(lambda o: np.float64(o.fnr(t0)) / np.float64(o.fpr(t0)), config=BootstrapConfig(nb_samples=30))
             except Exception:
+                pass
+    if case.get("warm_sample") and len(s.pos) and len(s.neg):
+        from score_analysis import BootstrapConfig
+        np.random.seed(len(s.pos) * 101 + len(s.neg))
+        for _ in range(2):
+            try:
+                s.bootstrap_sample(BootstrapConfig(sampling_method=case["warm_sample"], ratio=0.5 if case["warm_sample"] == "proportion" else None))
+            except ValueError:
                 pass
     for w in case.get("warmup", []):
         try:
